@@ -63,19 +63,19 @@ func mkLockCtx(threads [][]string) *mc.Exec {
 					if err != nil {
 						hist = append(hist, me+"!"+op)
 						if oc.ctx.Err() == nil {
-							mc.Fail("%s: %s returned %v although its context has not ended", me, op, err)
+							mc.Fail("acquisition returned an error although its context has not ended\n%s: %s returned %v", me, op, err)
 						}
 						continue // holds nothing: no release
 					}
 					hist = append(hist, me+"+"+op)
 					if op[0] == 'W' {
 						if writers > 0 || readers > 0 {
-							mc.Fail("mutual exclusion: %s acquired the write lock while %d writer(s) and %d reader(s) are inside; history=%v", me, writers, readers, hist)
+							mc.Fail("mutual exclusion: write lock acquired while a writer or reader is inside\n%s: %d writer(s) and %d reader(s) inside; history=%v", me, writers, readers, hist)
 						}
 						writers++
 					} else {
 						if writers > 0 {
-							mc.Fail("mutual exclusion: %s acquired the read lock while a writer is inside; history=%v", me, hist)
+							mc.Fail("mutual exclusion: read lock acquired while a writer is inside\n%s; history=%v", me, hist)
 						}
 						readers++
 					}
@@ -104,10 +104,10 @@ func mkLockCtx(threads [][]string) *mc.Exec {
 		// everybody else is eventually granted because failed acquisitions
 		// hold nothing and successful ones are released
 		if u := unfinished(e); len(u) > 0 {
-			return fmt.Errorf("deadlock: callers never returned (a cancelled waiter must return; a failed acquisition must hold nothing): %v; history=%v", u, hist)
+			return fmt.Errorf("deadlock: callers never returned (a cancelled waiter must return; a failed acquisition must hold nothing)\nunfinished=%v; history=%v", u, hist)
 		}
 		if tok, r, w := lock.McContextState(l); tok != 0 || r != 0 || w {
-			return fmt.Errorf("lock not free after every holder released (tokens=%d readers=%d writer=%v): an acquisition that reported an error, or a release, left something held; history=%v", tok, r, w, hist)
+			return fmt.Errorf("lock not free after every holder released: an acquisition that reported an error, or a release, left something held\ntokens=%d readers=%d writer=%v; history=%v", tok, r, w, hist)
 		}
 		mc.Outcome(strings.Join(hist, " "))
 		return nil
@@ -140,15 +140,19 @@ func lockCtxScenarios() []hx.Scenario {
 			alpha = append(alpha, o+c)
 		}
 	}
+	// quick tier: everything with <= 3 sections; 4 sections only without a
+	// racing canceller; 3 threads with at most one racing canceller
+	racing := func(name string) int { return strings.Count(name, "c") }
 	for _, name := range combos(seqs(alpha, 2), 2, canonPlain, nil) {
 		b := 2
-		if totalOps(parseScen(name)) <= 2 {
+		n := totalOps(parseScen(name))
+		if n <= 2 {
 			b = 3
 		}
-		add(name, false, b)
+		add(name, n > 3 && racing(name) > 0, b)
 	}
 	for _, name := range combos(seqs(alpha, 1), 3, canonPlain, nil) {
-		add(name, false, 2)
+		add(name, racing(name) > 1, 2)
 	}
 	for _, name := range combos(seqs(alpha, 2), 3, canonPlain, func(th [][]string) bool { return totalOps(th) <= 4 }) {
 		add(name, true, 2)
